@@ -16,7 +16,6 @@ open Arca.Gen.AtpClientFacts
 def modelSections : List (String × Nat × String) := [
   ("Execute", 1, "cSpawnW (wait-group Add for the signal writer, refused when done)"),
   ("Close", 1, "clMark"),
-  ("executeWriteLoop", 1, "wCheck"),
   ("sendErrorToAll", 1, "lDeliver of a step-fatal error without run ID"),
   ("sendErrorToAllAndStopReading", 1, "lDeliver of a decode error / server-fatal error (fan-out and flag clear)"),
   ("handleWorkDoneMessage", 1, "lDeliver of work-done"),
@@ -31,7 +30,10 @@ def modelSections : List (String × Nat × String) := [
 def criticalSections : List (String × Nat) :=
   (regions.filter (fun r => r.idx != 0)).map (fun r => (r.fn, r.idx))
 
-/-- F1. The critical sections of client.go are exactly the ones the model has steps for. -/
+/-- F1. The critical sections of client.go are exactly the ones the model has steps for.  (The signal
+    writer goroutine has none of its own: its opening check reads the context, not `done` under the
+    mutex - it must never wait for the client mutex, which the read loop holds while it hands an
+    emitted signal to a caller who may in turn be waiting for that writer.) -/
 theorem sections_are_model_steps :
     criticalSections = modelSections.map (fun p => (p.1, p.2.1)) := by decide
 
